@@ -241,6 +241,9 @@ async fn one_step(root: &Path, idx: usize, step: &Value) -> Value {
 	}
 	let before = stat_of(&path);
 	let before_content = content_of(&path);
+	// I/O fault: the file may not grow beyond `fsize_limit` bytes during this call (RLIMIT_FSIZE with
+	// SIGXFSZ ignored: open/truncate succeed, the write is short or refused with EFBIG)
+	let _fsize = step["fsize_limit"].as_u64().map(FsizeGuard::set);
 	let res = if raw {
 		write_file(&fm, ft.clone(), &data).await
 	} else {
@@ -251,6 +254,7 @@ async fn one_step(root: &Path, idx: usize, step: &Value) -> Value {
 			_ => write_certificate(&fm, &data).await,
 		}
 	};
+	drop(_fsize);
 	// read back at once: the call has returned, the bytes must be there
 	let after = stat_of(&path);
 	let content = content_of(&path);
@@ -265,6 +269,30 @@ async fn one_step(root: &Path, idx: usize, step: &Value) -> Value {
 		"content_hex": content,
 		"data_hex": hex(&data),
 	})
+}
+
+/// RLIMIT_FSIZE lowered for the lifetime of the guard (process-wide: the probe runs one op at a time).
+struct FsizeGuard(nix::libc::rlimit);
+
+impl FsizeGuard {
+	fn set(limit: u64) -> Self {
+		let mut old = nix::libc::rlimit { rlim_cur: 0, rlim_max: 0 };
+		unsafe {
+			nix::libc::signal(nix::libc::SIGXFSZ, nix::libc::SIG_IGN);
+			nix::libc::getrlimit(nix::libc::RLIMIT_FSIZE, &mut old);
+			let new = nix::libc::rlimit { rlim_cur: limit as nix::libc::rlim_t, rlim_max: old.rlim_max };
+			nix::libc::setrlimit(nix::libc::RLIMIT_FSIZE, &new);
+		}
+		FsizeGuard(old)
+	}
+}
+
+impl Drop for FsizeGuard {
+	fn drop(&mut self) {
+		unsafe {
+			nix::libc::setrlimit(nix::libc::RLIMIT_FSIZE, &self.0);
+		}
+	}
 }
 
 /// op write_history
